@@ -417,6 +417,45 @@ theorem prune_result_readable (kc : Consts) (o : Opts) (r : Repo.Repo) (files : 
       exact Or.inr (ih (Repo.apply r0 op))
   exact (prune_preserves_readable kc o r files used existing d hr hc h hearly _ (hlast _ r)).2.2
 
+/-! ### (3'') a prune run in which a storage operation FAILS
+
+`prune_repository` is sequential at the level of its phases and propagates every failed storage operation with `?` — the
+write of a repacked pack surfaces at the next `copy` or, for the last pack of a repacker, at `BlobCopier::finalize`; the
+index write at `Indexer::finalize`; removals at `delete_list`.  So a run with one failing operation is `Repo.runWithFault`
+on the executed operation list: it stops there and returns `Err`.  (That the real code does not swallow a failure is checked
+on the real code by the fault sweep of the `hist` channel, step `q`.) -/
+
+/-- **`prune_failed_write_keeps_snapshots`**: under the hypotheses of `prune_preserves_readable`, if the `k`-th storage
+operation of the prune run fails — the write of a repacked tree or data pack (the last one included), the write of the new
+index file, the removal of an old index file or of a pack — the run reports failure, and the state it leaves behind is
+consistent, has all snapshot files, and every snapshot is completely readable: nothing needed was removed, and nothing that
+was not stored is listed.  Every `k`, every option set (except `early_delete_index` ∧ `instant_delete`), mark-only and
+instant-delete. -/
+theorem prune_failed_write_keeps_snapshots (kc : Consts) (o : Opts) (r : Repo.Repo) (files : List IndexFile) (used : List Key)
+    (existing : List (Nat × Nat)) (d : Decided)
+    (hr : Reads r files used existing) (hc : Repo.consistent r = true)
+    (h : plan true kc o files used existing = some d)
+    (hearly : (o.earlyDeleteIndex && o.instantDelete) = false)
+    (k : Nat) (hk : k < ((execute true o d).ops o).length) :
+    (Repo.runWithFault r k ((execute true o d).ops o)).2 = false ∧
+    Repo.consistent (Repo.runWithFault r k ((execute true o d).ops o)).1 = true ∧
+    (Repo.runWithFault r k ((execute true o d).ops o)).1.snaps = r.snaps ∧
+    ∀ s ∈ r.snaps, Repo.readable (Repo.runWithFault r k ((execute true o d).ops o)).1 s = true := by
+  obtain ⟨h1, h2⟩ := Rustic.Props.C03.failed_op_stops_sequential_protocol ((execute true o d).ops o) r k hk
+  exact ⟨h1, prune_preserves_readable kc o r files used existing d hr hc h hearly _ h2⟩
+
+/-- **`prune_failed_repack_write_keeps_index`**: a run that fails while it still WRITES — at the early removal of an
+unreferenced pack, at the write of a repacked pack or at the write of the new index file (`k ≤ |removeFirst| + |new packs|`)
+— stops before the clean-up: the index files (and snapshot files) are exactly those from before the run; no index file and
+no listed pack has been removed, so what the old index lists is still what a reader finds.  For every execution record
+(no hypothesis on the plan), every option set except `early_delete_index` ∧ `instant_delete`. -/
+theorem prune_failed_repack_write_keeps_index (o : Opts) (r : Repo.Repo) (e : Exec)
+    (hearly : (o.earlyDeleteIndex && o.instantDelete) = false)
+    (k : Nat) (hk : k ≤ e.removeFirst.length + (execNewPacks e).length) :
+    (Repo.runWithFault r k (e.ops o)).1.indexes = r.indexes ∧ (Repo.runWithFault r k (e.ops o)).1.snaps = r.snaps := by
+  rw [ops_eq_pruneRunOps o e hearly]
+  exact Repo.prune_run_fault_before_cleanup r _ _ _ _ _ k hk
+
 /-! ### Witnesses (non-vacuity, and the defect fixed by `fix: prune keys used_ids by (blob type, id)`) -/
 
 def wConsts : Consts :=
@@ -480,5 +519,17 @@ example : Repo.consistent vRepo = true ∧
     (plan true wConsts vOpts vFiles [(.data, 1)] vExisting).map
       (fun d => Repo.firstBad vRepo ((execute true vOpts d).ops vOpts)) = some none := by
   refine ⟨by decide, by decide +kernel, by decide +kernel⟩
+
+/-- non-vacuity of `prune_failed_write_keeps_snapshots` / `prune_failed_repack_write_keeps_index` on the same repository: the
+run has 4 storage operations (repacked pack, new index, removal of the old index file, removal of the expired pack); a fault
+at operation k = 0 … 3 gives (`Err`, consistent state, number of index files 1, 1, 2, 1) — the old index file is still the
+only one when the pack write or the index write fails; without fault (k = 4) the run returns `Ok`. -/
+example :
+    (plan true wConsts vOpts vFiles [(.data, 1)] vExisting).map (fun d =>
+      (List.range (((execute true vOpts d).ops vOpts).length + 1)).map (fun k =>
+        let x := Repo.runWithFault vRepo k ((execute true vOpts d).ops vOpts)
+        (x.2, Repo.consistent x.1, x.1.indexes.length)))
+      = some [(false, true, 1), (false, true, 1), (false, true, 2), (false, true, 1), (true, true, 1)] := by
+  decide +kernel
 
 end Rustic.Props.C02
